@@ -9,7 +9,7 @@ from harness.corpus import accepted, accepted_families
 from harness.project import project
 from harness.rewrites import applicable, results_of, run_call
 
-ALPHA = ['v', 'x', 'A', 'f', 'a', 'zz']
+ALPHA = ['v', 'x', 'A', 'f', 'a', 'zz', 'k', 'j', 'y', 'i']
 
 
 def subnodes(obj):
@@ -84,7 +84,9 @@ def run(replay=None):
     rep.add_tlc(stats)
     fams, st2 = accepted_families(['slots', 'quants', 'funs', 'incl', 'alias'], cap=None if thorough else 500, salt='c15f')
     rep.add_tlc(st2)
-    asts = asts + fams
+    qd, st3 = accepted_families(['qdom'], salt='c15q')       # quantifiers nested inside the domain of a quantifier
+    rep.add_tlc(st3)
+    asts = asts + fams + qd
     events, info = [], {}
     eid = 0
     slot_cov = {}
